@@ -20,6 +20,7 @@ import (
 	"github.com/vulcand/oxy/v2/buffer"
 	"github.com/vulcand/oxy/v2/cbreaker"
 	"github.com/vulcand/oxy/v2/connlimit"
+	"github.com/vulcand/oxy/v2/forward"
 	"github.com/vulcand/oxy/v2/internal/holsterv4/clock"
 	"github.com/vulcand/oxy/v2/internal/holsterv4/collections"
 	"github.com/vulcand/oxy/v2/internal/verif/vrt"
@@ -567,6 +568,44 @@ func bufferOverlap() *sched.Instance {
 	return inst
 }
 
+// forwarder: two requests go through ONE forward.New proxy (a stub transport answers, so nothing but the library's
+// own request rewriting runs), both naming forwarding headers in Connection - the rarely taken path. Whatever the
+// forwarder keeps between requests or per process must be synchronised.
+type stubTransport struct{}
+
+func (stubTransport) RoundTrip(r *http.Request) (*http.Response, error) {
+	return &http.Response{StatusCode: 200, Proto: "HTTP/1.1", ProtoMajor: 1, ProtoMinor: 1, Header: http.Header{"X-Backend": {"1"}, "X-Saw-Real-Ip": {r.Header.Get("X-Real-Ip")}},
+		Body: io.NopCloser(strings.NewReader("ok")), ContentLength: 2, Request: r}, nil
+}
+
+func forwarder() *sched.Instance {
+	f := forward.New(true)
+	f.Transport = stubTransport{}
+	var got [2]string
+	do := func(i int) func() {
+		return func() {
+			rec := httptest.NewRecorder()
+			req := httptest.NewRequest("GET", "http://front.example/p?q=1", nil)
+			req.RemoteAddr = fmt.Sprintf("10.0.0.%d:1234", i+1)
+			req.Header.Set("Connection", "X-Real-Ip, X-Forwarded-Host")
+			req.URL = mustURL("http://backend.internal/x")
+			f.ServeHTTP(rec, req)
+			got[i] = fmt.Sprintf("%d/%s", rec.Code, rec.Header().Get("X-Saw-Real-Ip"))
+		}
+	}
+	inst := &sched.Instance{Names: []string{"req1", "req2"}}
+	inst.Bodies = []func(){do(0), do(1)}
+	inst.Check = func(*vrt.Exec) []vrt.Failure {
+		for i, g := range got {
+			if want := fmt.Sprintf("200/10.0.0.%d", i+1); g != want {
+				return []vrt.Failure{fail("cross-talk:forwarder", "request %d through the forwarder: status/X-Real-Ip seen by the backend = %s, want %s", i+1, g, want)}
+			}
+		}
+		return nil
+	}
+	return inst
+}
+
 func stack() *sched.Instance {
 	c := &counter{}
 	rr, _ := roundrobin.New(okHandler(c, true))
@@ -611,6 +650,7 @@ func Scenarios(tier string) []*sched.Scenario {
 		mk("connlimiter", -1, false, connLimiter),
 		mk("tracer", -1, false, tracer),
 		mk("buffer-overlap", b, false, bufferOverlap),
+		mk("forwarder", -1, false, forwarder),
 		mk("stack", b-1, false, stack),
 	}
 }
